@@ -173,6 +173,44 @@ def layout_rule(fi, stack_text, labels):
     return [holds("R-AXES", fi, role, unparse(ret[-1].value)[:80], ret[-1])]
 
 
+def _copies_of(e):
+    """(example index text, number of copies text) of a fresh tensor built from rows of X, or None:
+       X[i:i + 1] -> (i, 1 with a leading axis) ; X[i] -> (i, no leading axis) ; clone / detach / contiguous keep it ; unsqueeze(0) / [None]
+       add the leading axis ; .repeat(k, 1, 1) makes k copies (a missing leading axis is prepended by repeat itself)"""
+    def ev(e):
+        # -> (index text, copies text | None for 'no leading axis yet')
+        if isinstance(e, ast.Subscript) and isinstance(e.value, ast.Name) and e.value.id == "X":
+            sl = e.slice
+            if isinstance(sl, ast.Slice) and sl.lower is not None and sl.upper is not None and sl.step is None and \
+                    unparse(sl.upper) in ("%s + 1" % unparse(sl.lower), "1 + %s" % unparse(sl.lower)):
+                return unparse(sl.lower), "1"
+            if isinstance(sl, (ast.Name, ast.Constant)):
+                return unparse(sl), None
+            if isinstance(sl, ast.Tuple) and len(sl.elts) == 1 + 0 and isinstance(sl.elts[0], ast.Constant) and sl.elts[0].value is None:
+                return None
+            return None
+        if isinstance(e, ast.Subscript) and isinstance(e.slice, ast.Constant) and e.slice.value is None:
+            r = ev(e.value)
+            return (r[0], "1") if r and r[1] is None else None
+        if isinstance(e, ast.Call):
+            f = e.func
+            if dotted(f) == "torch.clone" and len(e.args) == 1 and not e.keywords:
+                return ev(e.args[0])
+            if isinstance(f, ast.Attribute) and f.attr in ("clone", "detach", "contiguous") and not e.args and not e.keywords:
+                return ev(f.value)
+            if isinstance(f, ast.Attribute) and f.attr == "unsqueeze" and len(e.args) == 1 and const_value(e.args[0]) == 0:
+                r = ev(f.value)
+                return (r[0], "1") if r and r[1] is None else None
+            if isinstance(f, ast.Attribute) and f.attr == "repeat" and len(e.args) == 3 and not e.keywords and \
+                    const_value(e.args[1]) == 1 and const_value(e.args[2]) == 1:
+                r = ev(f.value)
+                if r and r[1] in (None, "1"):
+                    return r[0], unparse(e.args[0])
+        return None
+    r = ev(e)
+    return r if r and r[1] is not None else None
+
+
 def dinuc_rules(repo):
     fi = repo.func(E + ".dinucleotide_shuffle")
     out = []
@@ -201,9 +239,11 @@ def dinuc_rules(repo):
         else:
             cl = [s for s in loop.body if isinstance(s, ast.Assign) and unparse(s.targets[0]) == base]
             t = unparse(cl[0].value) if cl else ""
-            ok = t in ("torch.clone(X[%s:%s + 1]).repeat(n, 1, 1)" % (iv, iv), "X[%s:%s + 1].repeat(n, 1, 1)" % (iv, iv), "X[%s:%s + 1].clone().repeat(n, 1, 1)" % (iv, iv))
-            if not ok:
-                out.append(violation("REGION", fi, role, "the output buffer is `%s`, not n copies of example %s" % (t, iv), cl[0] if cl else st[0]))
+            got = _copies_of(cl[0].value) if cl else None
+            if got is None:
+                out.append(unrecognised("REGION", fi, role, "the output buffer `%s` is not a recognised way of writing n copies of example %s" % (t, iv), cl[0] if cl else st[0]))
+            elif got != (iv, "n"):
+                out.append(named("REGION", fi, role, "the output buffer is `%s`: %s cop(ies) of example `%s`, not n copies of example %s" % (t, got[1], got[0], iv), cl[0]))
             else:
                 out.append(holds("REGION", fi, role, "%s <- walk(%s)" % (tgt, src), st[0]))
         # n passed through
